@@ -495,7 +495,108 @@ func checkBlock(c *checkCtx) {
 			c.violation(name, map[string]interface{}{"case": cs, "error": res.err, "returned_after": res.returnedIn.String()}, "%s", res.viol)
 		}
 	}
+	// back-to-back deadline waits on one stream
+	for r := 0; r < c.pick(2, 40); r++ {
+		viol, races, inconcl := runDeadlineReuse(c, c.pick(1500, 3000), r%2 == 0, c.seed+int64(r))
+		c.eval(1)
+		c.count("deadline-reuse iterations with data arriving within 40 us of the deadline", int64(races))
+		name := fmt.Sprintf("deadline-reuse-%d", r)
+		if inconcl != "" {
+			c.inconclusiveCase(name, inconcl)
+		}
+		if races > 0 {
+			c.nontrivial(fmt.Sprintf("deadline-reuse/%v", r%2 == 0))
+		}
+		if viol != "" {
+			c.violation(name, map[string]interface{}{"round": r}, "%s", viol)
+		}
+	}
 	if windowHits == 0 {
 		c.noObservation("the ReadMoreBeforeWait window was never hit")
 	}
+}
+
+// ---------------------------------------------------------------------------------------------
+// deadline reuse: "with a timeout error, never early" over back-to-back waits of one stream. Data is timed to arrive
+// right at the deadline of wait #1 (so the deadline timer fires while the read returns), then wait #2 gets a deadline far
+// in the future: it must not return ErrTimeout before that deadline (a tick left over from wait #1 would do that).
+func runDeadlineReuse(c *checkCtx, iterations int, memfd bool, seed int64) (viol string, races int, inconcl string) {
+	p, err := newSessionPair(pairOpt{memfd: memfd, sizes: smallSizes(256, 30, 4096, 70), bufCap: 2 << 20})
+	if err != nil {
+		return "", 0, "pair: " + err.Error()
+	}
+	defer p.close()
+	cl, err := p.client.OpenStream()
+	if err != nil {
+		return "", 0, err.Error()
+	}
+	cl.BufferWriter().WriteByte(1)
+	if err := cl.Flush(false); err != nil {
+		return "", 0, err.Error()
+	}
+	sv := p.serverStream(cl.StreamID(), 10*time.Second)
+	if sv == nil {
+		return "", 0, "server stream missing"
+	}
+	rng := caseRand(seed, 9)
+	send := func(after time.Duration) chan struct{} {
+		done := make(chan struct{})
+		go func() {
+			defer close(done)
+			if after > 0 {
+				t := time.Now()
+				for time.Since(t) < after {
+					// spin: sleep granularity is too coarse for a rendezvous with a timer
+				}
+			}
+			sv.BufferWriter().WriteByte(7)
+			_ = sv.Flush(false)
+		}()
+		return done
+	}
+	readOne := func(deadline time.Duration) (error, time.Duration) {
+		t0 := time.Now()
+		cl.SetReadDeadline(t0.Add(deadline))
+		_, err := cl.BufferReader().ReadBytes(1)
+		if err == nil {
+			cl.BufferReader().ReleasePreviousRead()
+		}
+		return err, time.Since(t0)
+	}
+	for i := 0; i < iterations; i++ {
+		d1 := time.Duration(150+rng.Intn(400)) * time.Microsecond
+		s1 := send(d1 - time.Duration(rng.Intn(60))*time.Microsecond + time.Duration(rng.Intn(60))*time.Microsecond)
+		err1, took1 := readOne(d1)
+		if err1 != nil && err1 != ErrTimeout {
+			return "", races, "read failed: " + err1.Error()
+		}
+		if err1 == ErrTimeout && took1 < d1 {
+			return fmt.Sprintf("ReadBytes returned ErrTimeout after %v, before its deadline of %v", took1, d1), races, ""
+		}
+		if took1 > d1-40*time.Microsecond && took1 < d1+40*time.Microsecond {
+			races++ // data and deadline within 40 us of each other
+		}
+		<-s1
+		// wait #2 (and #3 if wait #1 timed out and its byte is still to come): deadline far away, data soon
+		pendingBytes := 0
+		if err1 == ErrTimeout {
+			pendingBytes = 1
+		}
+		s2 := send(time.Duration(100+rng.Intn(300)) * time.Microsecond)
+		for n := 0; n < 1+pendingBytes; n++ {
+			const far = 3 * time.Second
+			err2, took2 := readOne(far)
+			if err2 == ErrTimeout && took2 < far-200*time.Millisecond {
+				<-s2
+				return fmt.Sprintf("iteration %d: a read with a deadline %v away returned ErrTimeout after only %v (the previous wait of this stream ended within %v of its own deadline)",
+					i, far, took2, (took1 - d1)), races, ""
+			}
+			if err2 != nil {
+				<-s2
+				return "", races, "second read failed: " + err2.Error()
+			}
+		}
+		<-s2
+	}
+	return "", races, ""
 }
